@@ -23,7 +23,7 @@ def drive(ck, tier, seed, api, want, jobs, mode="fork", label=""):
         if job["family"] == "Fc" and r["costs"]:
             per_class_costs.setdefault((job["n"], job["conn"], job["cls"]), set()).update(r["costs"])
         for c in r["cands"]:
-            key = "%s %s n=%d %s R=%s S=%s ph=%s" % (c["api"], c["label"][:50], c["n"], c["conn"], c["R"], c["S"], c["phases"])
+            key = "%s%s %s n=%d %s R=%s S=%s ph=%s" % (c["api"], " resign" if c.get("resign") else "", c["label"][:50], c["n"], c["conn"], c["R"], c["S"], c["phases"])
             cands.append((key, dict(kind="pipeline", want=sorted(want), **c),
                           "%s(%d-%s) on R=%s S=%s signs=%s: %s" % (c["api"], c["n"], c["conn"], c["R"], c["S"], c["phases"], c["label"])))
     seen = set()
@@ -67,6 +67,14 @@ def replay(case):
     gates = dense.gates_of(qc)
     if any(len(q) > 2 for _, q in gates):
         return True, "gate on more than two qubits"
+    if "C01" in want and api == "prep" and case.get("resign"):
+        stab.phases[:] = 1 - stab.phases
+        labels = [("+" if l[0] == "-" else "-") + l[1:] for l in labels]
+        try:
+            qc = get_preparation_circuit(stab, conn)
+        except Exception as e:
+            return True, "second call after in-place sign flip raised %r" % (e,)
+        gates = dense.gates_of(qc)
     if "C01" in want and api == "prep":
         psi = dense.run(n, gates)
         for lab in labels:
